@@ -180,13 +180,14 @@ STALL = 45  # seconds without an answer before the case in progress is declared 
 MAX_HANGS = 3  # after that many hung cases the rest of the batch is not run (answer NOTRUN)
 
 
-def run_lines(binary, lines, timeout=3600, stall=STALL, hangs=0):
+def run_lines(binary, lines, timeout=3600, stall=STALL, hangs=0, extra_env=None):
     """feed `lines` to a driver and collect `<id> <answer>`; a process that dies gives ABORT for the case in progress, one
     that produces no answer for `stall` seconds is killed and gives HANG for it; the remaining cases are re-run"""
     if not lines:
         return {}
     import selectors, threading
-    p = subprocess.Popen([binary], stdin=subprocess.PIPE, stdout=subprocess.PIPE, stderr=subprocess.DEVNULL)
+    p = subprocess.Popen([binary], stdin=subprocess.PIPE, stdout=subprocess.PIPE, stderr=subprocess.DEVNULL,
+                         env=dict(os.environ, **(extra_env or {})))
     data = ("\n".join(lines) + "\n").encode()
 
     def feed():
@@ -242,7 +243,7 @@ def run_lines(binary, lines, timeout=3600, stall=STALL, hangs=0):
                 if hangs >= MAX_HANGS:
                     out.update({x.split(" ")[1]: "NOTRUN" for x in rest})
                 else:
-                    out.update(run_lines(binary, rest, timeout, stall, hangs))
+                    out.update(run_lines(binary, rest, timeout, stall, hangs, extra_env))
                 break
     return out
 
@@ -259,13 +260,23 @@ def run_cvm(lines):
     return out
 
 
-def run_impl(lines):
+def run_impl(lines, extra_env=None):
     """the implementation side: real portus (pharness) and, for VM cases, real libccp (cvm)"""
     vm = [l for l in lines if l.startswith("VM ")]
     rest = [l for l in lines if not l.startswith("VM ")]
-    out = run_lines(PHARNESS, rest)
+    out = run_lines(PHARNESS, rest, extra_env=extra_env)
     out.update(run_cvm(vm))
     return out
+
+
+# commands whose answer is a function of the case line alone (no threads, no clocks): they are run a second time in a process
+# WITHOUT a tracing subscriber and must answer identically
+DETERMINISTIC_CMDS = ("DEC ", "DECS ", "ENC ", "RT ", "BKD ", "BKDR ", "CMP ", "CMPX ", "AST ", "RUN ", "RUNPAIR ")
+
+
+def run_impl_untraced(lines):
+    sub = [l for l in lines if l.startswith(DETERMINISTIC_CMDS)]
+    return run_lines(PHARNESS, sub, extra_env={"PHARNESS_TRACING": "off"})
 
 
 def run_model(lines):
